@@ -5,7 +5,7 @@
    z n d: observation n, coordinate d, as passed to fit / predict (not normalised); c n: the gain of observation n;
    the scaled data are  fun n d => c n * z n d.  Cells n < N are the observations (all leading indices flattened).
    tiny = np.finfo(dtype).tiny.  Oracles (eigh, spline / hyp1f1, least_squares, ive) are universally quantified
-   functions: in the two runs they receive EQUAL arguments (C04_cacgmm_matrix_for_eigh_gain_inv), hence return equal
+   functions: in the two runs they receive EQUAL arguments (C04_mstep_gain_inv, first clause), hence return equal
    results -- that is the whole argument for the fitted parameters.
    Equality "on the cells" (RTn / RGn of Proofs/Invariance.v, written out below): weights and affiliations at every class
    and every cell n < N, class parameters at every class. *)
@@ -14,33 +14,25 @@ From Coquelicot Require Import Coquelicot.
 From PB Require Import Ops CLin Model.EM Model.Posterior Model.Trainers Model.Mixture Proofs.Invariance.
 Open Scope C_scope.
 
-(* ---- normalisation of a scaled observation: unit(c z) = (c/|c|) unit(z) ---- *)
-Theorem C04_unit_norm_scale_where (D : nat) (tiny : R) (c : C) (z : nat -> C) (d : nat) :
-  c <> 0 -> cnorm RO D z <> 0%R ->
-  cunit_where RO D tiny (fun d => c * z d) d = (c / RtoC (Cmod c)) * cunit_where RO D tiny z d.
-Proof. exact (cunit_where_scale D tiny c z d). Qed.
-Print Assumptions C04_unit_norm_scale_where.
-
-Theorem C04_unit_norm_scale_max (D : nat) (tiny : R) (c : C) (z : nat -> C) (d : nat) :
-  c <> 0 -> (0 < tiny)%R -> (tiny <= cnorm RO D z)%R -> (tiny <= Cmod c * cnorm RO D z)%R ->
-  cunit_max RO D tiny (fun d => c * z d) d = (c / RtoC (Cmod c)) * cunit_max RO D tiny z d.
-Proof. exact (cunit_max_scale D tiny c z d). Qed.
-Print Assumptions C04_unit_norm_scale_max.
-
-Theorem C04_gain_phasor_has_modulus_one (c : C) : c <> 0 -> Cmod (c / RtoC (Cmod c)) = 1%R.
-Proof. exact (phasor_mod c). Qed.
-Print Assumptions C04_gain_phasor_has_modulus_one.
+(* ---- normalisation of a scaled observation: unit(c z) = (c/|c|) unit(z), and c/|c| is a unit phasor ---- *)
+Theorem C04_unit_norm_scale (D : nat) (tiny : R) (c : C) (z : nat -> C) (d : nat) :
+  c <> 0 ->
+  Cmod (c / RtoC (Cmod c)) = 1%R /\
+  (cnorm RO D z <> 0%R ->                                  (* eps_style='where': cACG, cACGMM *)
+   cunit_where RO D tiny (fun d => c * z d) d = (c / RtoC (Cmod c)) * cunit_where RO D tiny z d) /\
+  ((0 < tiny)%R -> (tiny <= cnorm RO D z)%R -> (tiny <= Cmod c * cnorm RO D z)%R ->      (* y / max(||y||, tiny) *)
+   cunit_max RO D tiny (fun d => c * z d) d = (c / RtoC (Cmod c)) * cunit_max RO D tiny z d).
+Proof. exact (fun Hc => conj (phasor_mod c Hc) (conj (cunit_where_scale D tiny c z d Hc) (cunit_max_scale D tiny c z d Hc))). Qed.
+Print Assumptions C04_unit_norm_scale.
 
 (* ---- everything the densities and M-steps read is invariant under a unit phasor per observation ---- *)
-Theorem C04_outer_phase_inv (u a b : C) : Cmod u = 1%R -> (u * a) * Cconj (u * b) = a * Cconj b.
-Proof. exact (outer_phase_inv u a b). Qed.
-Print Assumptions C04_outer_phase_inv.
-
-Theorem C04_scatter_phase_inv (N : nat) (y : nat -> nat -> C) (w : nat -> R) (u : nat -> C) (d e : nat) :
-  (forall n, (n < N)%nat -> Cmod (u n) = 1%R) ->
-  scatter RO N (fun n d => u n * y n d) w d e = scatter RO N y w d e.
-Proof. exact (fun Hu => scatter_phase_inv N y (fun n d => u n * y n d) w w u d e Hu (fun _ _ _ => eq_refl) (fun _ _ => eq_refl)). Qed.
-Print Assumptions C04_scatter_phase_inv.
+Theorem C04_outer_product_and_scatter_phase_inv (N : nat) (y : nat -> nat -> C) (w : nat -> R) (u : nat -> C) (d e : nat) :
+  (forall (v a b : C), Cmod v = 1%R -> (v * a) * Cconj (v * b) = a * Cconj b) /\
+  ((forall n, (n < N)%nat -> Cmod (u n) = 1%R) ->
+   scatter RO N (fun n d => u n * y n d) w d e = scatter RO N y w d e).
+Proof. exact (conj outer_phase_inv
+   (fun Hu => scatter_phase_inv N y (fun n d => u n * y n d) w w u d e Hu (fun _ _ _ => eq_refl) (fun _ _ => eq_refl))). Qed.
+Print Assumptions C04_outer_product_and_scatter_phase_inv.
 
 Theorem C04_cacg_quadratic_form_and_log_pdf_phase_inv (D : nat) (tiny : R) (U : nat -> nat -> C) (lam : nat -> R) (u : C) (y : nat -> C) :
   Cmod u = 1%R ->
@@ -50,15 +42,13 @@ Proof. exact (fun Hu => conj (cacg_quad_phase_inv D tiny U lam u y Hu) (cacg_log
 Print Assumptions C04_cacg_quadratic_form_and_log_pdf_phase_inv.
 
 (* ComplexWatson.log_pdf / ComplexBingham.log_pdf take unit-norm input and do not renormalise: phase gains only *)
-Theorem C04_watson_log_pdf_phase_inv (D : nat) (mode : nat -> C) (kappa lognorm : R) (u : C) (y : nat -> C) :
-  Cmod u = 1%R -> watson_log_pdf RO D mode kappa lognorm (fun d => u * y d) = watson_log_pdf RO D mode kappa lognorm y.
-Proof. exact (watson_log_pdf_phase_inv D mode kappa lognorm u y). Qed.
-Print Assumptions C04_watson_log_pdf_phase_inv.
-
-Theorem C04_bingham_log_pdf_phase_inv (D : nat) (U : nat -> nat -> C) (lam : nat -> R) (lognorm : R) (u : C) (y : nat -> C) :
-  Cmod u = 1%R -> bingham_log_pdf RO D U lam lognorm (fun d => u * y d) = bingham_log_pdf RO D U lam lognorm y.
-Proof. exact (bingham_log_pdf_phase_inv D U lam lognorm u y). Qed.
-Print Assumptions C04_bingham_log_pdf_phase_inv.
+Theorem C04_watson_and_bingham_log_pdf_phase_inv (D : nat) (mode : nat -> C) (kappa lognorm : R)
+    (U : nat -> nat -> C) (lam : nat -> R) (lognormb : R) (u : C) (y : nat -> C) :
+  Cmod u = 1%R ->
+  watson_log_pdf RO D mode kappa lognorm (fun d => u * y d) = watson_log_pdf RO D mode kappa lognorm y /\
+  bingham_log_pdf RO D U lam lognormb (fun d => u * y d) = bingham_log_pdf RO D U lam lognormb y.
+Proof. exact (fun Hu => conj (watson_log_pdf_phase_inv D mode kappa lognorm u y Hu) (bingham_log_pdf_phase_inv D U lam lognormb u y Hu)). Qed.
+Print Assumptions C04_watson_and_bingham_log_pdf_phase_inv.
 
 (* ---- the normalising entry point of the cACG density: any non-zero complex gain ---- *)
 Theorem C04_cacg_log_pdf_gain_inv (D : nat) (tiny : R) (U : nat -> nat -> C) (lam : nat -> R) (c : C) (z : nat -> C) :
@@ -72,23 +62,18 @@ Print Assumptions C04_cacg_log_pdf_gain_inv.
 
 (* ---- M-step: the matrix handed to eigh is the same matrix (all covariance_norm / hermitize options, both
         normalisation styles), hence so is everything computed from the oracle's answer ---- *)
-Theorem C04_cacgmm_matrix_for_eigh_gain_inv (D' N : nat) (tiny : R) (sal : nat -> R) (style_where herm : bool) (cov_norm : nat)
-    (z : nat -> nat -> C) (c : nat -> C) (arow qrow : nat -> R) :
-  (forall n, (n < N)%nat -> gain_ok D' tiny style_where z c n) ->
-  cacgmm_cov RO D' N tiny sal style_where herm cov_norm (fun n d => c n * z n d) arow qrow
-  = cacgmm_cov RO D' N tiny sal style_where herm cov_norm z arow qrow.
-Proof. exact (fun H => cacgmm_cov_gain_inv D' N tiny sal style_where herm cov_norm z c H arow arow qrow qrow
-                         (fun _ _ => eq_refl) (fun _ _ => eq_refl)). Qed.
-Print Assumptions C04_cacgmm_matrix_for_eigh_gain_inv.
-
 Theorem C04_mstep_gain_inv (D' N : nat) (tiny : R) (sal : nat -> R) (style_where herm : bool) (cov_norm : nat) (floor : R)
     (eigh : (nat -> nat -> C) -> (nat -> nat -> C) * (nat -> R))
     (z : nat -> nat -> C) (c : nat -> C) (arow qrow : nat -> R) :
   (forall n, (n < N)%nat -> gain_ok D' tiny style_where z c n) ->
+  cacgmm_cov RO D' N tiny sal style_where herm cov_norm (fun n d => c n * z n d) arow qrow
+  = cacgmm_cov RO D' N tiny sal style_where herm cov_norm z arow qrow /\
   cacgmm_mstep_c RO D' N tiny sal style_where herm cov_norm floor eigh z arow qrow
   = cacgmm_mstep_c RO D' N tiny sal style_where herm cov_norm floor eigh (fun n d => c n * z n d) arow qrow.
-Proof. exact (fun H => cacgmm_mstep_gain_inv D' N tiny sal style_where herm cov_norm floor eigh z c H arow arow qrow qrow
-                         (fun _ _ => eq_refl) (fun _ _ => eq_refl)). Qed.
+Proof. exact (fun H => conj
+   (cacgmm_cov_gain_inv D' N tiny sal style_where herm cov_norm z c H arow arow qrow qrow (fun _ _ => eq_refl) (fun _ _ => eq_refl))
+   (cacgmm_mstep_gain_inv D' N tiny sal style_where herm cov_norm floor eigh z c H arow arow qrow qrow
+      (fun _ _ => eq_refl) (fun _ _ => eq_refl))). Qed.
 Print Assumptions C04_mstep_gain_inv.
 
 (* ---- E-step: equal models give equal posteriors and quadratic forms on every cell ---- *)
